@@ -1,7 +1,7 @@
 // Package vatomic mirrors the function API of sync/atomic; every operation is
 // a scheduling point when the controlled scheduler is active. The typed API
-// (atomic.Int64 etc.) is aliased to the real types: those operations are
-// atomic but not scheduling points (limitation noted in DESIGN.md).
+// (atomic.Int64, atomic.Pointer[T] ...) is mirrored by wrapper types whose
+// methods are scheduling points too.
 package vatomic
 
 import (
@@ -11,17 +11,108 @@ import (
 	"github.com/Vedant9500/WTF/internal/zzvrt/vsched"
 )
 
-type (
-	Int32   = atomic.Int32
-	Int64   = atomic.Int64
-	Uint32  = atomic.Uint32
-	Uint64  = atomic.Uint64
-	Uintptr = atomic.Uintptr
-	Bool    = atomic.Bool
-	Value   = atomic.Value
-)
+// Int32 mirrors atomic.Int32; every method is a scheduling point.
+type Int32 struct{ v atomic.Int32 }
 
-type Pointer[T any] = atomic.Pointer[T]
+func (x *Int32) Load() int32        { point("Int32.Load"); return x.v.Load() }
+func (x *Int32) Store(n int32)      { point("Int32.Store"); x.v.Store(n) }
+func (x *Int32) Swap(n int32) int32 { point("Int32.Swap"); return x.v.Swap(n) }
+func (x *Int32) CompareAndSwap(o, n int32) bool {
+	point("Int32.CompareAndSwap")
+	return x.v.CompareAndSwap(o, n)
+}
+func (x *Int32) Add(d int32) int32 { point("Int32.Add"); return x.v.Add(d) }
+func (x *Int32) And(m int32) int32 { point("Int32.And"); return x.v.And(m) }
+func (x *Int32) Or(m int32) int32  { point("Int32.Or"); return x.v.Or(m) }
+
+// Int64 mirrors atomic.Int64; every method is a scheduling point.
+type Int64 struct{ v atomic.Int64 }
+
+func (x *Int64) Load() int64        { point("Int64.Load"); return x.v.Load() }
+func (x *Int64) Store(n int64)      { point("Int64.Store"); x.v.Store(n) }
+func (x *Int64) Swap(n int64) int64 { point("Int64.Swap"); return x.v.Swap(n) }
+func (x *Int64) CompareAndSwap(o, n int64) bool {
+	point("Int64.CompareAndSwap")
+	return x.v.CompareAndSwap(o, n)
+}
+func (x *Int64) Add(d int64) int64 { point("Int64.Add"); return x.v.Add(d) }
+func (x *Int64) And(m int64) int64 { point("Int64.And"); return x.v.And(m) }
+func (x *Int64) Or(m int64) int64  { point("Int64.Or"); return x.v.Or(m) }
+
+// Uint32 mirrors atomic.Uint32; every method is a scheduling point.
+type Uint32 struct{ v atomic.Uint32 }
+
+func (x *Uint32) Load() uint32         { point("Uint32.Load"); return x.v.Load() }
+func (x *Uint32) Store(n uint32)       { point("Uint32.Store"); x.v.Store(n) }
+func (x *Uint32) Swap(n uint32) uint32 { point("Uint32.Swap"); return x.v.Swap(n) }
+func (x *Uint32) CompareAndSwap(o, n uint32) bool {
+	point("Uint32.CompareAndSwap")
+	return x.v.CompareAndSwap(o, n)
+}
+func (x *Uint32) Add(d uint32) uint32 { point("Uint32.Add"); return x.v.Add(d) }
+func (x *Uint32) And(m uint32) uint32 { point("Uint32.And"); return x.v.And(m) }
+func (x *Uint32) Or(m uint32) uint32  { point("Uint32.Or"); return x.v.Or(m) }
+
+// Uint64 mirrors atomic.Uint64; every method is a scheduling point.
+type Uint64 struct{ v atomic.Uint64 }
+
+func (x *Uint64) Load() uint64         { point("Uint64.Load"); return x.v.Load() }
+func (x *Uint64) Store(n uint64)       { point("Uint64.Store"); x.v.Store(n) }
+func (x *Uint64) Swap(n uint64) uint64 { point("Uint64.Swap"); return x.v.Swap(n) }
+func (x *Uint64) CompareAndSwap(o, n uint64) bool {
+	point("Uint64.CompareAndSwap")
+	return x.v.CompareAndSwap(o, n)
+}
+func (x *Uint64) Add(d uint64) uint64 { point("Uint64.Add"); return x.v.Add(d) }
+func (x *Uint64) And(m uint64) uint64 { point("Uint64.And"); return x.v.And(m) }
+func (x *Uint64) Or(m uint64) uint64  { point("Uint64.Or"); return x.v.Or(m) }
+
+// Uintptr mirrors atomic.Uintptr; every method is a scheduling point.
+type Uintptr struct{ v atomic.Uintptr }
+
+func (x *Uintptr) Load() uintptr          { point("Uintptr.Load"); return x.v.Load() }
+func (x *Uintptr) Store(n uintptr)        { point("Uintptr.Store"); x.v.Store(n) }
+func (x *Uintptr) Swap(n uintptr) uintptr { point("Uintptr.Swap"); return x.v.Swap(n) }
+func (x *Uintptr) CompareAndSwap(o, n uintptr) bool {
+	point("Uintptr.CompareAndSwap")
+	return x.v.CompareAndSwap(o, n)
+}
+func (x *Uintptr) Add(d uintptr) uintptr { point("Uintptr.Add"); return x.v.Add(d) }
+func (x *Uintptr) And(m uintptr) uintptr { point("Uintptr.And"); return x.v.And(m) }
+func (x *Uintptr) Or(m uintptr) uintptr  { point("Uintptr.Or"); return x.v.Or(m) }
+
+// Bool mirrors atomic.Bool; every method is a scheduling point.
+type Bool struct{ v atomic.Bool }
+
+func (x *Bool) Load() bool       { point("Bool.Load"); return x.v.Load() }
+func (x *Bool) Store(n bool)     { point("Bool.Store"); x.v.Store(n) }
+func (x *Bool) Swap(n bool) bool { point("Bool.Swap"); return x.v.Swap(n) }
+func (x *Bool) CompareAndSwap(o, n bool) bool {
+	point("Bool.CompareAndSwap")
+	return x.v.CompareAndSwap(o, n)
+}
+
+// Value mirrors atomic.Value.
+type Value struct{ v atomic.Value }
+
+func (x *Value) Load() any      { point("Value.Load"); return x.v.Load() }
+func (x *Value) Store(n any)    { point("Value.Store"); x.v.Store(n) }
+func (x *Value) Swap(n any) any { point("Value.Swap"); return x.v.Swap(n) }
+func (x *Value) CompareAndSwap(o, n any) bool {
+	point("Value.CompareAndSwap")
+	return x.v.CompareAndSwap(o, n)
+}
+
+// Pointer mirrors atomic.Pointer[T].
+type Pointer[T any] struct{ v atomic.Pointer[T] }
+
+func (x *Pointer[T]) Load() *T     { point("Pointer.Load"); return x.v.Load() }
+func (x *Pointer[T]) Store(n *T)   { point("Pointer.Store"); x.v.Store(n) }
+func (x *Pointer[T]) Swap(n *T) *T { point("Pointer.Swap"); return x.v.Swap(n) }
+func (x *Pointer[T]) CompareAndSwap(o, n *T) bool {
+	point("Pointer.CompareAndSwap")
+	return x.v.CompareAndSwap(o, n)
+}
 
 func point(op string) {
 	if s := vsched.Cur(); s != nil {
